@@ -272,6 +272,23 @@ def run_unit(u):
             cb = comp(b)
             if not (cb == c and hash(cb) == hash(c)):
                 viol('compile with equal arguments in another dict order/type is unequal or hashes differently: %r vs %r' % (a, b), a[0], 'eq-equal-args')
+            # --- equal arguments of another *type* (str subclass, bool / int subclass for the flags), compiled afresh
+            class S(str):
+                pass
+
+            class I(int):
+                pass
+            b2 = (S(a[0]) if rng.random() < .7 else a[0], variant_map(rng, a[1]), variant_map(rng, a[2]),
+                  rng.choice([bool(a[3]), I(a[3])]) if rng.random() < .7 else a[3])
+            sv.purge()
+            st_t, cb2 = monitors.guarded_call(comp, b2)
+            bump('argument_type_variants')
+            if st_t != 'ok':
+                viol('compile with equal arguments of another type raised %r: %r' % (cb2, tuple(type(x).__name__ for x in b2)), a[0], 'eq-arg-type-raise')
+            elif not (cb2 == c and c == cb2 and hash(cb2) == hash(c)):
+                viol('compile with equal arguments of another type (%s) is %s to the original: %r' % (
+                    ', '.join(type(x).__name__ for x in b2), 'unequal' if cb2 != c else 'equal but hashes differently', a), a[0],
+                    'eq-arg-type:' + ('ne' if cb2 != c else 'hash'))
             # --- one argument different
             neighbours = []
             for i in range(1, 4):
